@@ -273,6 +273,8 @@ class Field(WeightedGraph):
 
         # create a subfield(thresholding)
         sf = self.subfield(self.field.T[refdim] >= th)
+        if sf is None:
+            return depth
         initial_field = sf.field.T[refdim]
         sf.field = initial_field.astype(np.float64)
 
@@ -336,6 +338,8 @@ class Field(WeightedGraph):
 
         # create a subfield(thresholding)
         sf = self.subfield(self.field[:, refdim] >= th)
+        if sf is None:
+            return np.array([], np.int_), label
 
         # compute the basins
         hneighb = sf.highest_neighbor(refdim)
@@ -388,6 +392,8 @@ class Field(WeightedGraph):
 
         # create a subfield(thresholding)
         sf = self.subfield(self.field[:, refdim] >= th)
+        if sf is None:
+            return np.array([], np.int_), np.array([], np.int_), label
         initial_field = sf.field[:, refdim].copy()
         sf.field = initial_field.copy()
 
